@@ -511,7 +511,18 @@ pub struct RunResult {
 }
 
 /// Run one program: a fresh child process per segment (segments end at `restart`).
+/// A segment that exceeds 120 s is not reported as a hang at once: the whole program is run a second time with a
+/// 900 s limit per segment (real-geometry programs move hundreds of MB and slow down a lot on a loaded machine);
+/// only a hang that repeats is reported.
 pub fn run_program(lines: &[String], tag: &str) -> RunResult {
+    let r = run_program_with_limit(lines, tag, 120);
+    if r.note.as_deref().map(|n| n.contains("hung")).unwrap_or(false) {
+        return run_program_with_limit(lines, tag, 900);
+    }
+    r
+}
+
+fn run_program_with_limit(lines: &[String], tag: &str, limit_s: u64) -> RunResult {
     let exe = std::env::current_exe().unwrap();
     let base = std::path::PathBuf::from(format!("/dev/shm/walrus-verif-e-{}-{}", std::process::id(), tag));
     let _ = std::fs::remove_dir_all(&base);
@@ -534,7 +545,7 @@ pub fn run_program(lines: &[String], tag: &str) -> RunResult {
             match child.try_wait().unwrap() {
                 Some(s) => break Some(s),
                 None => {
-                    if t0.elapsed().as_secs() > 120 {
+                    if t0.elapsed().as_secs() > limit_s {
                         let _ = child.kill();
                         let _ = child.wait();
                         break None;
@@ -563,7 +574,7 @@ pub fn run_program(lines: &[String], tag: &str) -> RunResult {
                 break;
             }
             None => {
-                note = Some(format!("child hung (120 s) while executing line {}", done + 1));
+                note = Some(format!("child hung ({} s) while executing line {}", limit_s, done + 1));
                 break;
             }
         }
